@@ -7,7 +7,7 @@ import itertools, os, random, re, shutil, subprocess, sys, tempfile
 from bounded.util import chunked, pmap
 
 SYS = ['absent', '1.0', '2.0']
-CONSTR = [None, '>=1.5']
+CONSTR = [None, '>=1.5', ['>=1.0', '<2.5']]          # the list: the system 1.0 / 2.0 meet it, the fallback / override (3.0) meets only its first half
 FB = ['none', 'explicit', 'provide', 'configured', 'override']
 WM = ['default', 'nofallback', 'forcefallback', 'nodownload']
 FFF = [None, 'foo', 'sp']
@@ -27,10 +27,16 @@ def reference(sysv, constr, fb, wm, fff, req, af):
     """-> 'system' | 'fallback' | 'override' | 'notfound' | 'error' | None (combination not allowed / not specified)"""
     if fb == 'explicit' and af is not None:
         return None                      # fallback: and allow_fallback: are mutually exclusive keywords
+    cs = [] if constr is None else ([constr] if isinstance(constr, str) else list(constr))
+
+    def meets(v):
+        return all((v >= float(c[2:])) if c.startswith('>=') else (v < float(c[1:])) for c in cs)
     if fb == 'override':
-        return 'override'
+        # the name is overridden: that dependency is the only candidate; it must meet EVERY constraint
+        return 'override' if meets(3.0) else ('error' if req else 'notfound')
     if fb == 'configured':
-        return 'fallback'                # the subproject has already overridden the name: that dependency wins
+        # the subproject has already overridden the name: that dependency wins, if its version meets every constraint
+        return 'fallback' if meets(3.0) else ('error' if req else 'notfound')
     forced = wm == 'forcefallback' or fff is not None
     if fb == 'explicit':
         fb_ok = True
@@ -42,12 +48,14 @@ def reference(sysv, constr, fb, wm, fff, req, af):
         fb_ok = False
     if wm == 'nofallback' and not forced:
         fb_ok = False
-    sys_ok = sysv != 'absent' and (constr is None or float(sysv) >= 1.5)
+    sys_ok = sysv != 'absent' and meets(float(sysv))
+    if fb_ok and not meets(3.0):
+        fb_ok = 'bad-version'            # the fallback is configured, but what it provides does not meet the constraints
     if forced and fb_ok:
-        return 'fallback'
+        return 'fallback' if fb_ok is True else ('error' if req else 'notfound')
     if sys_ok:
         return 'system'
-    if fb_ok:
+    if fb_ok is True:
         return 'fallback'
     return 'error' if req else 'notfound'
 
@@ -56,7 +64,7 @@ def project(case):
     sysv, constr, fb, wm, fff, req, af = case
     kw = []
     if constr:
-        kw.append(f"version: '{constr}'")
+        kw.append(f"version: {constr!r}" if isinstance(constr, list) else f"version: '{constr}'")
     if fb == 'explicit':
         kw.append("fallback: ['sp', 'foo_dep']")
     if not req:
